@@ -405,6 +405,12 @@ impl NetcodeServer {
                 packet.packet_type()
             );
 
+            // Connection requests are not encrypted nor signed, anyone can forge one with the
+            // address of a connected client, so they cannot count as a sign of life.
+            if matches!(packet, Packet::ConnectionRequest { .. }) {
+                return Ok(ServerResult::None);
+            }
+
             client.last_packet_received_time = self.current_time;
             match client.state {
                 ConnectionState::Connected => match packet {
